@@ -124,6 +124,8 @@ class Sorts:
             return self.ElemList
         if k == 'seq':
             return z3.SeqSort(self.sort_of(kind[1]))
+        if k == 'set':
+            return z3.SetSort(self.sort_of(kind[1]))
         raise OutOfReach(f'no SMT sort for kind {kind}')
 
 
